@@ -7,11 +7,18 @@
 
 """Util functions to handle random seeds."""
 
+import threading
 from contextlib import contextmanager
 
 import numpy as np
 
 from pyxel.util import _verif
+
+
+# The legacy generator of numpy is shared by all threads of the process: blocks that
+# temporarily seed it must not overlap, else a thread saves (and later restores) the
+# seeded state of another thread and both draw from the same stream.
+_SEED_LOCK = threading.RLock()
 
 
 @contextmanager
@@ -26,6 +33,7 @@ def set_random_seed(seed: int | None = None):
         value = np.random.random()
     """
     if seed is not None:
+        _SEED_LOCK.acquire()
         previous_state = np.random.get_state()
         if _verif.ENABLED:
             _verif.emit(
@@ -42,6 +50,7 @@ def set_random_seed(seed: int | None = None):
                     seed=int(seed),
                     state=_verif.state_digest(np.random.get_state()),
                 )
+            _SEED_LOCK.release()
     else:
         # Do nothing
         yield
